@@ -387,7 +387,7 @@ class L2Gen:
             # stay small whatever else the recipe contains
             tid = ["attr", ["name", "tk"], "id"]
             tick = {"object": "K", "nickname": "tk", "fields": [["f2", ["lit", 0]]]}
-            var = {"object": r.choice(["A", "B"]), "count": ["tmpl", [["expr", ["mul", ["sub", tid, ["int", a]], ["sub", tid, ["int", b]]]]]],
+            var = {"object": "V", "count": ["tmpl", [["expr", ["mul", ["sub", tid, ["int", a]], ["sub", tid, ["int", b]]]]]],
                    "fields": [["f1", ["ref", "tk"]]]}
             sts.insert(0, tick)
             sts.insert(1, var)
